@@ -145,10 +145,11 @@ func (w *worker) runCase(cfg Cfg, name string, next func(*view) (string, bool)) 
 	v := &view{}
 	orc.prev = in.snapshot()
 	v.snap = orc.prev
+	lastCloseErr, noConnDiag := "", ""
 	var batch []Req
 	var batchOps []string
-	lastCloseErr := ""
 	defer func() {
+		res.name += noConnDiag
 		// diagnostics: should this case disagree with the model, the report shows why the server
 		// closed a connection last
 		if lastCloseErr != "" {
@@ -162,6 +163,9 @@ func (w *worker) runCase(cfg Cfg, name string, next func(*view) (string, bool)) 
 		b, err := in.doBatch(batch)
 		if err != nil {
 			return err
+		}
+		if b.Diag != "" && !strings.Contains(noConnDiag, b.Diag) {
+			noConnDiag += fmt.Sprintf(" [conn %d %s]", batch[0].Conn, b.Diag)
 		}
 		post := in.snapshot()
 		orc.afterBatch(b, post, in)
@@ -278,7 +282,11 @@ func (w *worker) runCase(cfg Cfg, name string, next func(*view) (string, bool)) 
 			}
 			post := in.snapshot()
 			line = out.line(post)
-			if out.CloseErr != "" {
+			if out.NoConn && out.CloseErr != "" {
+				if !strings.Contains(noConnDiag, out.CloseErr) {
+					noConnDiag += fmt.Sprintf(" [conn %d %s]", r.Conn, out.CloseErr)
+				}
+			} else if out.CloseErr != "" {
 				lastCloseErr = fmt.Sprintf("%s -> %d: %s", r.Method, out.Status, out.CloseErr)
 			}
 			if e := out.CloseErr; e != "" {
@@ -622,6 +630,50 @@ func runChild(c *corr.Ctx, spec string) {
 	send("done", nil)
 }
 
+// resultQueue is unbounded: a child must never be held up by the parent (its server has real idle
+// timeouts running), whatever the merge order and however long the parent takes to compare a batch.
+type resultQueue struct {
+	mu     sync.Mutex
+	cond   *sync.Cond
+	items  []caseResult
+	closed bool
+}
+
+func newResultQueue() *resultQueue {
+	q := &resultQueue{}
+	q.cond = sync.NewCond(&q.mu)
+	return q
+}
+
+func (q *resultQueue) push(r caseResult) {
+	q.mu.Lock()
+	q.items = append(q.items, r)
+	q.mu.Unlock()
+	q.cond.Signal()
+}
+
+func (q *resultQueue) close() {
+	q.mu.Lock()
+	q.closed = true
+	q.mu.Unlock()
+	q.cond.Broadcast()
+}
+
+func (q *resultQueue) pop() (caseResult, bool) {
+	q.mu.Lock()
+	defer q.mu.Unlock()
+	for len(q.items) == 0 && !q.closed {
+		q.cond.Wait()
+	}
+	if len(q.items) == 0 {
+		return caseResult{}, false
+	}
+	r := q.items[0]
+	q.items[0] = caseResult{}
+	q.items = q.items[1:]
+	return r, true
+}
+
 // tailBuffer keeps the end of what a child wrote to stderr (the panic message is there).
 type tailBuffer struct {
 	mu  sync.Mutex
@@ -676,16 +728,16 @@ func runParent(c *corr.Ctx) {
 	if err != nil {
 		self = os.Args[0]
 	}
-	chans := make([]chan caseResult, n)
+	chans := make([]*resultQueue, n)
 	var wg sync.WaitGroup
 	var noteMu sync.Mutex
 	var notes []string
 	for i := 0; i < n; i++ {
-		chans[i] = make(chan caseResult, 256)
+		chans[i] = newResultQueue()
 		wg.Add(1)
 		go func(i int) {
 			defer wg.Done()
-			defer close(chans[i])
+			defer chans[i].close()
 			startJob, skip, crashes := 0, 0, 0
 			for {
 				args := []string{"-seed", strconv.FormatUint(c.Seed, 10), "-tier", c.Tier, "-oracle", c.Oracle, "-out", os.DevNull}
@@ -747,7 +799,7 @@ func runParent(c *corr.Ctx) {
 					case "end":
 						var wr wireResult
 						if json.Unmarshal(l.V, &wr) == nil {
-							chans[i] <- fromWire(wr)
+							chans[i].push(fromWire(wr))
 						}
 						endsInJob++
 						if cur != nil {
@@ -773,7 +825,7 @@ func runParent(c *corr.Ctx) {
 				r.viol = append(r.viol, corr.Violation{Property: prop, Clause: "no sequence crashes or hangs the server",
 					Key: "sess-server-panic", Where: where, Input: cs,
 					Detail: fmt.Sprintf("the process running the server died (%v) %s: %s", werr, during, stderr.panicText())})
-				chans[i] <- r
+				chans[i].push(r)
 				if crashes > 5 {
 					noteMu.Lock()
 					notes = append(notes, fmt.Sprintf("worker %d: the server process died %d times; its remaining jobs were not run", i, crashes))
@@ -791,7 +843,7 @@ func runParent(c *corr.Ctx) {
 			if finished[i] {
 				continue
 			}
-			r, ok := <-chans[i]
+			r, ok := chans[i].pop()
 			if !ok {
 				finished[i] = true
 				open--
@@ -1006,6 +1058,9 @@ func buildJobs(c *corr.Ctx) []job {
 	for start := 0; start < nRandom; start += chunk {
 		start := start
 		jobs = append(jobs, func(w *worker, out func(caseResult)) {
+			if only := os.Getenv("VERIF_SESS_RANDSTART"); only != "" && only != strconv.Itoa(start) {
+				return // debugging aid: run a single chunk of the random conversations
+			}
 			for i := start; i < start+chunk && i < nRandom; i++ {
 				cfg := cfgs[0]
 				if w.rng.IntN(100) >= 40 {
